@@ -28,6 +28,7 @@ func init() {
 
 func ruleC02Effects(c *Ctx) {
 	checkEffects(c, "C02", "C02.effects")
+	c.checkEntryCountOnce("C02.effects")
 	c.checkHeaderAppend("C02.effects", "ParseCommit", "Parents", "parent")
 }
 
@@ -101,6 +102,31 @@ func (c *Ctx) checkHeaderAppend(rule, parser, field, literal string) {
 					}
 				}
 			}
+		}
+		// … and under no further condition: every such header is recorded
+		extra := ""
+		l := innermostLoop(loopsOf(f), ap.Block())
+		for _, fct := range factsAt(ap.Block()) {
+			if l == nil || !l.Blocks[fct.If.Block()] || fct.If.Block() == l.Head {
+				continue
+			}
+			cond, _ := normCond(fct.Cond, fct.Truth)
+			if cmp, ok := cond.(*ssa.BinOp); ok {
+				if _, isLit := constStr(cmp.Y); isLit {
+					continue // header-key comparisons of the switch
+				}
+				if _, isLit := constStr(cmp.X); isLit {
+					continue
+				}
+				if (isNilConst(cmp.Y) || isNilConst(cmp.X)) && (isErrorType(cmp.X.Type()) || isErrorType(cmp.Y.Type())) {
+					continue // err != nil tests
+				}
+			}
+			extra = strings.TrimSpace(cond.String())
+		}
+		if extra != "" {
+			c.violate(rule, parser+":"+field+":every", ap.Pos(), name, fmt.Sprintf("whether a `%s` header is recorded depends on a further condition (%s): the count of %s would not be the number of such headers", literal, extra, field))
+			continue
 		}
 		if okElem {
 			c.hold(rule, parser+":"+field+":arm", ap.Pos(), fmt.Sprintf("one element per `%s` header, parsed from that header's value", literal))
